@@ -7,7 +7,7 @@
     Specifications: ImportSpec.v ([Resolvable] = every transitive import can be satisfied; [CodeResolvable] =
     what the importer's own traversal demands; the hypotheses [NoErrs], [Shallow], [AcyclicFiles], [NoTwin]). *)
 From Coq Require Import String Ascii List Bool.
-From LC Require Import ImportDefs ImportSpec ImportProofs ImportPost.
+From LC Require Import ImportDefs ImportSpec ImportProofs ImportPost ImportLayout.
 Import ListNotations.
 Local Open Scope string_scope.
 
@@ -52,15 +52,15 @@ Proof. exact ImportProofs.code_resolvable_resolvable. Qed.
 Print Assumptions C07_code_resolvable_resolvable.
 
 Theorem C07_resolvable_code_resolvable : forall fs m0 (rank : string -> nat),
-  (forall k sm url, fs_model fs k = Some sm -> In url (import_urls sm) -> rank (mk_key url) < rank k) ->
-  NoTwin fs m0 -> Resolvable fs m0 -> CodeResolvable fs m0.
+  (forall k sm url, fs_model fs k = Some sm -> In url (import_urls sm) -> rank (key_of (Some k) url) < rank k) ->
+  NoTwin fs m0 -> KeysOK fs -> Resolvable fs m0 -> CodeResolvable fs m0.
 Proof. exact ImportProofs.resolvable_code_resolvable. Qed.
 Print Assumptions C07_resolvable_code_resolvable.
 
 (** 3'. The property's statement, with the hypotheses the code needs stated:
     resolveImports = true  <->  every transitive import can be satisfied. *)
 Theorem C07_resolve_true_iff_partial : forall fs strict st m0 fuel,
-  NoErrs fs -> Shallow fs -> AcyclicFiles fs -> NoTwin fs m0 ->
+  NoErrs fs -> Shallow fs -> AcyclicFiles fs -> NoTwin fs m0 -> KeysOK fs ->
   cons fs st -> fuel_bound fs st <= fuel ->
   exists b st', resolve_imports fuel strict fs st m0 = Ok (b, st') /\ (b = true <-> Resolvable fs m0).
 Proof. exact ImportProofs.resolve_true_iff_partial. Qed.
@@ -83,7 +83,7 @@ Print Assumptions C07_resolve_after_clear.
 (** … so after the fault is repaired, a resolution after removeAllModels (from ANY importer state, whatever it
     has seen) or on a new Importer succeeds. *)
 Theorem C07_retry_after_repair : forall fs' strict st m0 fuel,
-  NoErrs fs' -> Shallow fs' -> AcyclicFiles fs' -> NoTwin fs' m0 -> Resolvable fs' m0 ->
+  NoErrs fs' -> Shallow fs' -> AcyclicFiles fs' -> NoTwin fs' m0 -> KeysOK fs' -> Resolvable fs' m0 ->
   fuel_bound fs' empty_state <= fuel ->
   exists st', resolve_imports fuel strict fs' (remove_all_models st) m0 = Ok (true, st').
 Proof. exact ImportProofs.retry_after_repair. Qed.
@@ -145,13 +145,17 @@ Print Assumptions C07_unresolved_test_crash_refuted.
       resolveImports = true  ->  hasUnresolvedImports() = false   (for every sufficient fuel).
     Each hypothesis is needed: fx_pop by C07_resolve_true_post_refuted, Shallow by …_refuted_unexamined, the local
     conditions by C07_unresolved_test_crash_refuted / the K3 witness. *)
-Theorem C07_resolve_true_post_partial : forall fs strict m0 fx (rank : string -> nat),
+Theorem C07_resolve_true_post_partial : forall fs strict m0 fx (rank urank : string -> nat),
   fx_pop fx = true ->
   Shallow fs ->
-  (forall k sm url, fs_model fs k = Some sm -> In url (import_urls sm) -> rank (mk_key url) < rank k) ->
+  (forall k sm url, fs_model fs k = Some sm -> In url (import_urls sm) -> rank (key_of (Some k) url) < rank k) ->
   NoTwin fs m0 -> NoTwinFiles fs ->
   (forall url, In url (import_urls m0) -> url <> origin_ref) ->
   (forall k sm url, fs_model fs k = Some sm -> In url (import_urls sm) -> url <> origin_ref) ->
+  (* performTestWithHistory compares URLs as written: along every import path they must differ; here: a rank on URL
+     texts that decreases from the URL a file was imported through to the URLs written in that file *)
+  (forall o cm url sm url', octx fs m0 o cm -> In url (import_urls cm) ->
+     fs_model fs (key_of o url) = Some sm -> In url' (import_urls sm) -> urank url' < urank url) ->
   OriginShallow m0 ->
   forall fuel st st', cons fs st -> resolve_imports fuel strict fs st m0 = Ok (true, st') ->
   exists N, forall fuel', N <= fuel' -> has_unresolved_imports fx fuel' st' m0 = Ok false.
@@ -159,12 +163,14 @@ Proof. exact ImportPost.resolve_true_post_partial. Qed.
 Print Assumptions C07_resolve_true_post_partial.
 
 Example C07_resolve_true_post_nonvacuous :
-  exists fx (rank : string -> nat) st',
+  exists fx (rank urank : string -> nat) st',
     fx_pop fx = true /\ Shallow ex_fs /\
-    (forall k sm url, fs_model ex_fs k = Some sm -> In url (import_urls sm) -> rank (mk_key url) < rank k) /\
+    (forall k sm url, fs_model ex_fs k = Some sm -> In url (import_urls sm) -> rank (key_of (Some k) url) < rank k) /\
     NoTwin ex_fs ex_m0 /\ NoTwinFiles ex_fs /\
     (forall url, In url (import_urls ex_m0) -> url <> origin_ref) /\
     (forall k sm url, fs_model ex_fs k = Some sm -> In url (import_urls sm) -> url <> origin_ref) /\
+    (forall o cm url sm url', octx ex_fs ex_m0 o cm -> In url (import_urls cm) ->
+       fs_model ex_fs (key_of o url) = Some sm -> In url' (import_urls sm) -> urank url' < urank url) /\
     OriginShallow ex_m0 /\ cons ex_fs empty_state /\
     resolve_imports (fuel_bound ex_fs empty_state) true ex_fs empty_state ex_m0 = Ok (true, st').
 Proof. exact ImportPost.post_nonvacuous. Qed.
@@ -212,6 +218,45 @@ Theorem C07_resolve_path_flat : forall dir name,
   import_key name dir = String.append dir name /\ new_base name dir = dir /\ normalise_path dir = dir.
 Proof. exact ImportProofs.resolve_path_flat. Qed.
 Print Assumptions C07_resolve_path_flat.
+
+(** Directories.  Library keys are the code's: base directory of the importing file ++ URL as written
+    ([key_of], never normalised).  The base path the code threads through fetchUnits / fetchComponent
+    (newBase = baseFile + pathFromUrl(url)) is the directory of the key under which the imported model was stored --
+    what the model derives from the owner ([base_of]); and for plain names in one directory the keys are the flat ones. *)
+Theorem C07_new_base_dir : forall base url, good_base base ->
+  new_base url base = base_of (Some (import_key url base)) /\ good_base (new_base url base).
+Proof. exact ImportProofs.new_base_dir. Qed.
+Print Assumptions C07_new_base_dir.
+
+Theorem C07_key_of_flat : forall url, no_sep url = true ->
+  key_of None url = mk_key url /\ forall u', no_sep u' = true -> key_of (Some (mk_key u')) url = mk_key url.
+Proof. exact ImportProofs.key_of_flat. Qed.
+Print Assumptions C07_key_of_flat.
+
+(** Resolution does not depend on how the files are spread over directories nor on how the URLs are spelled:
+    [LayoutSim] says that two worlds hold the same graph -- a relation R between their files (None = the origin model)
+    such that related files hold the same model up to URLs, and corresponding URLs reach related files (or no model,
+    in both worlds).  Then "every transitive import can be satisfied" carries over, and under the hypotheses of
+    C07_resolve_true_iff_partial for each world resolveImports gives the same answer in both. *)
+Theorem C07_resolvable_layout_invariant : forall fs1 fs2 m1 m2 R,
+  LayoutSim fs1 fs2 m1 m2 R -> Resolvable fs1 m1 -> Resolvable fs2 m2.
+Proof. exact ImportLayout.resolvable_layout. Qed.
+Print Assumptions C07_resolvable_layout_invariant.
+
+Theorem C07_resolve_layout_invariant_partial : forall fs1 fs2 m1 m2 R R' strict st1 st2 fuel1 fuel2,
+  LayoutSim fs1 fs2 m1 m2 R -> LayoutSim fs2 fs1 m2 m1 R' ->
+  NoErrs fs1 -> Shallow fs1 -> AcyclicFiles fs1 -> NoTwin fs1 m1 -> KeysOK fs1 -> cons fs1 st1 -> fuel_bound fs1 st1 <= fuel1 ->
+  NoErrs fs2 -> Shallow fs2 -> AcyclicFiles fs2 -> NoTwin fs2 m2 -> KeysOK fs2 -> cons fs2 st2 -> fuel_bound fs2 st2 <= fuel2 ->
+  exists b s1 s2, resolve_imports fuel1 strict fs1 st1 m1 = Ok (b, s1) /\ resolve_imports fuel2 strict fs2 st2 m2 = Ok (b, s2).
+Proof. exact ImportLayout.resolve_layout_invariant_partial. Qed.
+Print Assumptions C07_resolve_layout_invariant_partial.
+
+Example C07_layout_nonvacuous :
+  LayoutSim ex_fs lay_fs ex_m0 lay_m0 lay_R /\ LayoutSim lay_fs ex_fs lay_m0 ex_m0 lay_R' /\
+  (exists s1, resolve_imports (fuel_bound ex_fs empty_state) true ex_fs empty_state ex_m0 = Ok (true, s1)) /\
+  (exists s2, resolve_imports (fuel_bound lay_fs empty_state) true lay_fs empty_state lay_m0 = Ok (true, s2)).
+Proof. exact ImportLayout.layout_nonvacuous. Qed.
+Print Assumptions C07_layout_nonvacuous.
 
 (** Non-vacuity: a file system that satisfies every hypothesis above, is resolvable, and resolves. *)
 Example C07_nonvacuous :
